@@ -270,6 +270,46 @@ fn jitter(rng: &mut Rng) -> f32 {
     0.01 * (rng.range(-3, 3) as f32)
 }
 
+
+/// `ulp` of a finite f32 (spacing towards +inf), as coq/disc's f32_ulp
+fn ulp32(x: f32) -> f32 {
+    let a = x.abs();
+    if a == 0.0 {
+        f32::from_bits(1)
+    } else {
+        f32::from_bits(a.to_bits() + 1) - a
+    }
+}
+
+/// true when the matrix satisfies the conditioning predicate of coq/disc (property C08) with a
+/// safety margin of 4: factor = 0 or factor >= 4 * 8 (M+1) ulp(A), A = sum of the rows' largest
+/// magnitudes over the non-wildcard cells.  Generated matrices stay inside the domain where the
+/// scanner properties are theorems of the model (ill-conditioned matrices are known finding F14).
+fn comfortably_conditioned(rows: &[[f32; 5]]) -> bool {
+    let m = rows.len();
+    let mut a = 0.0f32;
+    let mut mx = 0.0f32;
+    let mut mn = 0.0f32;
+    for r in rows {
+        let mut am = 0.0f32;
+        let mut rmax = f32::NEG_INFINITY;
+        let mut rmin = f32::INFINITY;
+        for &x in r.iter().take(4) {
+            if !x.is_finite() {
+                return false;
+            }
+            am = am.max(x.abs());
+            rmax = rmax.max(x);
+            rmin = rmin.min(x);
+        }
+        a += am;
+        mx += rmax;
+        mn += rmin;
+    }
+    let factor = (mx - mn).abs() / 255.0;
+    factor == 0.0 || factor >= 4.0 * 8.0 * ((m + 1) as f32) * ulp32(a)
+}
+
 fn gen_matrix(rng: &mut Rng, m: usize) -> Vec<[f32; 5]> {
     let kind = rng.below(10);
     let mut rows: Vec<[f32; 5]> = vec![];
@@ -287,6 +327,20 @@ fn gen_matrix(rng: &mut Rng, m: usize) -> Vec<[f32; 5]> {
                 *x = v * scale;
             }
             rows.push(r);
+        }
+        // sometimes shift every row by a large constant (cells up to ~4e3: other binades for the
+        // f32 sums and for to_discrete), as long as the matrix stays comfortably conditioned
+        if rng.chance(1, 6) {
+            let shift = *rng.pick(&[8.0f32, 64.0, 512.0, 4096.0]) * if rng.chance(1, 2) { -1.0 } else { 1.0 };
+            let mut shifted = rows.clone();
+            for r in shifted.iter_mut() {
+                for x in r.iter_mut().take(4) {
+                    *x += shift;
+                }
+            }
+            if comfortably_conditioned(&shifted) {
+                rows = shifted;
+            }
         }
     } else if kind < 7 {
         // few distinct values: many exact ties between positions, jitters break some
@@ -324,12 +378,21 @@ fn gen_matrix(rng: &mut Rng, m: usize) -> Vec<[f32; 5]> {
         }
         return rows;
     } else {
-        // degenerate: constant rows (factor 0), or a single informative row
+        // degenerate: constant rows (factor 0), or a single informative row; a constant
+        // matrix of zeros gets zeros of mixed signs (the repaired F14b path: factor -0.0)
         let c0 = 0.25 * (rng.range(-8, 8) as f32);
+        let informative = rng.chance(1, 2);
         for i in 0..m {
             let mut r = [c0; 5];
-            if i == 0 && rng.chance(1, 2) {
+            if i == 0 && informative {
                 r[rng.below(4) as usize] += 0.25 * (1 + rng.below(8)) as f32;
+            }
+            if c0 == 0.0 {
+                for x in r.iter_mut().take(4) {
+                    if *x == 0.0 && rng.chance(1, 2) {
+                        *x = -0.0;
+                    }
+                }
             }
             rows.push(r);
         }
